@@ -46,6 +46,11 @@ EXPECTED_MISS = {
                  'that the rebuild branch never raises: C10.DEFAULTS, '
                  'C10.REAPPLY, C12.RELOAD, C20.FLAGS and C20.LOAD-STEP '
                  'fire), not the layering order C09 states',
+    'C15-r11-2': 'RuleDefault.__eq__ also compares scope types: the '
+                 'statement says what equality relies on (equal printed '
+                 'forms decide alike), not that nothing else may enter it; '
+                 'a stricter equality reports fewer redundant rules and '
+                 'changes no decision',
     'C20-r8-1': 'pre-fills the not yet published store so that a concurrent '
                 'caller no longer finds it empty and no longer reloads for '
                 'itself: the write discipline is unchanged, what changes is '
@@ -79,6 +84,10 @@ EXPECTED_INCONCLUSIVE = {
     'C13-r10-2': 'both walkers replaced by one reference graph filled by '
                  'a recursive generator and a path-sensitive search over '
                  'it (declined like C13-r5-2 / C13-r6-1)',
+    'C13-r11-1': 'undefined-reference walker answers with the name found '
+                 '(or None) instead of a verdict (declined like C13-n9-2)',
+    'C13-r11-2': 'cycle walker rewritten over an explicit work list of '
+                 '(check, path) frames',
     'C08-r6-2': 'the gate hands its error back instead of raising it '
                 '(C07.SURFACE / C14.SURFACE report the raise outside the '
                 'gate; C08 declines)',
